@@ -36,11 +36,13 @@ def time_limit(seconds):
         signal.signal(signal.SIGALRM, old)
 
 
-def guarded(fn, limit=20.0):
+def guarded(fn, limit=20.0, timeout_is_outcome=False):
     try:
         with time_limit(limit), contextlib.redirect_stdout(_DEVNULL):
             return ("ok", fn())
     except CaseTimeout:
+        if timeout_is_outcome:
+            return ("other", "Timeout", "no result within %.0fs" % limit)
         raise HarnessError("implementation call exceeded %.0fs" % limit)
     except RTAMTException as e:
         return ("rtamt", str(e))
@@ -85,7 +87,7 @@ def make_spec(kind, text, variables, semantics=None, io=None, consts=(), unit=No
     return spec
 
 
-def eval_offline_discrete(text, variables, data, n, time=None, **kw):
+def eval_offline_discrete(text, variables, data, n, time=None, limit=20.0, timeout_is_outcome=False, **kw):
     """Returns outcome with payload = list of [t, v] as returned by evaluate()."""
     def go():
         spec = make_spec("offd", text, variables, **kw)
@@ -94,10 +96,10 @@ def eval_offline_discrete(text, variables, data, n, time=None, **kw):
         for v in data:
             ds[v] = list(data[v])
         return spec.evaluate(ds)
-    return guarded(go)
+    return guarded(go, limit, timeout_is_outcome)
 
 
-def run_online_discrete(text, variables, data, n, pastify=False, time=None, **kw):
+def run_online_discrete(text, variables, data, n, pastify=False, time=None, limit=20.0, timeout_is_outcome=False, **kw):
     """payload = list of update() return values, one per step."""
     def go():
         spec = make_spec("ond", text, variables, **kw)
@@ -109,4 +111,4 @@ def run_online_discrete(text, variables, data, n, pastify=False, time=None, **kw
             t = time[i] if time is not None else i
             outs.append(spec.update(t, [(v, data[v][i]) for v in data]))
         return outs
-    return guarded(go)
+    return guarded(go, limit, timeout_is_outcome)
